@@ -28,6 +28,7 @@ CONSTANTS
   EqWrongs = {}
   CallKinds <- Calls_none
   MaxCalls = 0
+  Laws = {"mass"}
 INVARIANT RegistryIndependent
 INVARIANT WrittenIsPhysical
 INVARIANT RefusedOnlyIfWrongDimension
